@@ -67,3 +67,26 @@ func localMemOff(m *moduleEngine) int { return int(m.parent.offsets.LocalMemoryB
 //@   requires !verif_same_array(m.opaque, m.module.MemoryInstance.Buffer)
 //@   ensures[length-published-as-64-bits] opaqueLE64(m.opaque, localMemOff(m)+8) == uint64(len(m.module.MemoryInstance.Buffer))
 //@   modifies elems(m.opaque)
+
+// ---- C04: a global owned by the compiler engine lives in the module context; the host API reads and
+// writes exactly the 16 bytes compiled code uses for it.
+func globalOff(m *moduleEngine, i wasm.Index) int { return int(m.parent.offsets.GlobalsBegin) + 16*int(i) }
+
+func globalSlotOK(m *moduleEngine, i wasm.Index) bool {
+	return m.parent != nil && m.module != nil && m.module.Source != nil && int(m.parent.offsets.GlobalsBegin) >= 0 &&
+		int(m.parent.offsets.GlobalsBegin) < 1<<28 && i < 1<<24 && globalOff(m, i)+16 <= len(m.opaque)
+}
+
+//@ prop C04
+//@ func (m *moduleEngine) SetGlobalValue(i wasm.Index, lo, hi uint64)
+//@   requires globalSlotOK(m, i)
+//@   ensures[stored-where-code-reads] opaqueLE64(m.opaque, globalOff(m, i)) == lo && opaqueLE64(m.opaque, globalOff(m, i)+8) == hi
+//@   ensures[only-that-global] len(m.opaque) == old(len(m.opaque)) && forall k int :: 0 <= k && k < len(m.opaque) && (k < globalOff(m, i) || k >= globalOff(m, i)+16) ==> m.opaque[k] == old[byte](m.opaque[k])
+//@   may-panic i < m.module.Source.ImportGlobalCount
+//@   modifies elems(m.opaque)
+
+//@ func (m *moduleEngine) GetGlobalValue(i wasm.Index) (lo, hi uint64)
+//@   requires globalSlotOK(m, i)
+//@   ensures[read-where-code-writes] lo == opaqueLE64(m.opaque, globalOff(m, i)) && hi == opaqueLE64(m.opaque, globalOff(m, i)+8)
+//@   may-panic i < m.module.Source.ImportGlobalCount
+//@   modifies nothing
